@@ -511,16 +511,21 @@ class NearestNeighborModel(Model):
                 new_H_onsite = add_with_None_0(new_H_onsite, add_H_onsite)
             old_Hb = self.H_bond[(i + gs.n_sites) % old_L]
             new_Hb = self._group_sites_Hb_to_bond(gs, next_gs, old_Hb)
+            # Note: set the final labels before adding the contributions: the addition of npc Arrays
+            # transposes the second Array if it has the same labels in a different order!
+            labels = ['p0', 'p0*', 'p1', 'p1*']
+            if new_Hb is not None:
+                new_Hb.iset_leg_labels(labels)
             if new_H_onsite is not None:
                 if k + 1 != new_L or not finite:
                     # infinite or in the bulk: add new_H_onsite to new_Hb
                     add_Hb = npc.outer(new_H_onsite, next_gs.Id.transpose(['p', 'p*']))
-                    new_Hb = add_with_None_0(new_Hb, add_Hb)
+                    new_Hb = add_with_None_0(new_Hb, add_Hb.iset_leg_labels(labels))
                 else:  # finite and k = new_L - 1
                     # the new_H_onsite needs to be added to the right-most Hb
                     prev_gs = grouped_sites[k - 1]
                     add_Hb = npc.outer(prev_gs.Id.transpose(['p', 'p*']), new_H_onsite)
-                    H_bond[-1] = add_with_None_0(H_bond[-1], add_Hb)
+                    H_bond[-1] = add_with_None_0(H_bond[-1], add_Hb.iset_leg_labels(labels))
             H_bond[k2] = add_with_None_0(H_bond[k2], new_Hb)
             i += gs.n_sites
         for Hb in H_bond:
